@@ -61,34 +61,43 @@ def run(ctx):
             if not b or not sr or len(cl) != 1:
                 r.bad(name + "|shape", "anchor-missing: %s (build %d, search_reader %d, close %d)" % (name, len(b), len(sr), len(cl)), fn=f)
                 continue
-            # after the search, every path to return passes close (no `?` on the search result before it)
-            esc = C.all_paths_pass(f, [sr[0].target], {cl[0].bb}, f.return_blocks())
-            if esc:
+            # value table over (search result, close result) ∈ {Ok, Err}²: close() runs whatever the search said, and either
+            # error ends up in the answer (a `?` sequence, a match on the pair or combinators read the same)
+            from ..flow import table, ret_set
+            rows = {}
+            for row, sx in table(facts, f, calls={"SearchWorker::search_reader": [V("Ok", I(7)), V("Err", None)],
+                                                  close.split("::", 1)[1]: [V("Ok", None), V("Err", None)],
+                                                  build.split("::", 1)[1]: [V("Ok", None)]}):
+                sv = row[("call", "SearchWorker::search_reader")][1]
+                cv = row[("call", close.split("::", 1)[1])][1]
+                kinds = {("?" if v is None else v[1]) for v in ret_set(sx)}
+                rows[(sv, cv)] = (any(c.bb in sx.exec_blocks for c in cl), kinds)
+            if not all(ran for ran, _ in rows.values()):
                 r.bad(name + "|close", "%s can return after searching without calling close(): a failed command would go unreported "
                       "(the search result is propagated before close)" % name, fn=f, loc=sr[0].loc, construct="close")
             else:
-                r.ok(name + "|close", "every path from the search to return passes close()", fn=f)
-            v, d = classify_result(f, cl[0])
-            if v in ("try", "returned"):
+                r.ok(name + "|close", "close() runs after the search whatever its result", fn=f)
+            if rows[("Ok", "Err")][1] == {"Err"}:
                 r.ok(name + "|close-result", "close()'s result is propagated", fn=f)
             else:
-                r.bad(name + "|close-result", "the result of close() is %s: a failing %s would not be reported" % (
-                    v, "preprocessor" if "pre" in name else "decompressor"), fn=f, loc=cl[0].loc, construct="close-result")
-            # the search result is propagated too (after close)
-            tries = [c for c in f.calls() if c.is_("core::ops::try_trait::Try::branch") and C.dominates(f, cl[0].bb, c.bb)]
-            srv = any(mentions_call(eb.operand(c.args[0]), SW + "::search_reader") for c in tries)
-            if srv:
-                r.ok(name + "|search-result", "search result `?`-ed after close", fn=f)
+                r.bad(name + "|close-result", "the result of close() is dropped (search Ok, close Err ⇒ %s): a failing %s would not be reported" % (
+                    sorted(rows[("Ok", "Err")][1]), "preprocessor" if "pre" in name else "decompressor"), fn=f, loc=cl[0].loc,
+                    construct="close-result")
+            if rows[("Err", "Ok")][1] == {"Err"} and rows[("Err", "Err")][1] == {"Err"} and "Ok" in rows[("Ok", "Ok")][1]:
+                r.ok(name + "|search-result", "the search result is propagated after close", fn=f)
             else:
                 r.bad(name + "|search-result", "%s does not propagate the search result after closing" % name, fn=f, construct="search-result")
         f = facts.fn(SW + "::search_preprocessor")
         b = f.calls_to(CRB + "::build")
         if b:
-            v, d = classify_result(f, b[0])
-            if v in ("try", "returned"):
+            from ..flow import table, ret_set
+            kinds = set()
+            for row, sx in table(facts, f, calls={CRB.split("::", 1)[1] + "::build": [V("Err", None)]}):
+                kinds = {("?" if v is None else v[1]) for v in ret_set(sx)}
+            if kinds == {"Err"}:
                 r.ok("pre|spawn-error", "a preprocessor that cannot start is an error", fn=f)
             else:
-                r.bad("pre|spawn-error", "a preprocessor spawn failure is %s" % v, fn=f, construct="spawn")
+                r.bad("pre|spawn-error", "a preprocessor spawn failure is not reported (%s)" % sorted(kinds), fn=f, construct="spawn")
         g = facts.fn(DRB + "::build")
         bb_ = g.calls_to(CRB + "::build")
         pt = g.calls_to(DR + "::new_passthru")
